@@ -173,7 +173,8 @@ M = [
  ("benign-king-table-reordered", "src/move_generator/targets.rs", [
      ("        *targets |= (king << 1) & !Bitboard::A_FILE; // east\n        *targets |= (king >> 1) & !Bitboard::H_FILE; // west\n", ""),
      ("        *targets |= (king << 9) & !Bitboard::RANK_1 & !Bitboard::A_FILE; // northeast\n", "        *targets |= (king << 1) & !Bitboard::A_FILE; // east\n        *targets |= (king >> 1) & !Bitboard::H_FILE; // west\n        *targets |= (king << 9) & !Bitboard::RANK_1 & !Bitboard::A_FILE; // northeast\n"),
-   ], None, "ok|undecided", ["C11"]),
+   ], None, "ok", ["C11"]),
+ ("benign-knight-table-or-reordered", "src/move_generator/targets.rs", "move_nne | move_nee | move_see | move_sse | move_nnw | move_nww | move_sww | move_ssw;", "move_ssw | move_sww | move_nww | move_nnw | move_sse | move_see | move_nee | move_nne;", "ok", ["C11"]),
  ("promotions-reordered-c14", "src/move_generator/mod.rs", "[Piece::Queen, Piece::Rook, Piece::Bishop, Piece::Knight]", "[Piece::Knight, Piece::Rook, Piece::Bishop, Piece::Queen]", "violation", ["C14"]),
  ("benign-promotions-reordered-c01", "src/move_generator/mod.rs", "[Piece::Queen, Piece::Rook, Piece::Bishop, Piece::Knight]", "[Piece::Knight, Piece::Rook, Piece::Bishop, Piece::Queen]", "ok", ["C01"]),
  ("filter-reverses-order", "src/move_generator/mod.rs", "            valid_moves.push(chess_move);", "            valid_moves.insert(0, chess_move);", "violation", ["C14"]),
